@@ -102,7 +102,7 @@ impl SonicKZG10 {
                                 forall|i: usize| i <= pp.powers_of_g@.len() ==> pp.powers_of_gamma_g@.dom().contains(i),
                                 powers_for_degree_bound@.len() == min3(iti.index@, *degree_bound + 2),
                                 forall|k: int| 0 <= k < powers_for_degree_bound@.len() ==> (#[trigger] powers_for_degree_bound@[k]) == pp.powers_of_gamma_g@[(shift_degree + k) as usize],
-//@at /for i in 0\.\.=\(supported_hiding_bound \+ 1\) \{/
+//@loopstart 2
                             proof { assert(i == iti.index@); }
 //@end
 }
